@@ -129,7 +129,7 @@ def run(ctx):
     # vlib admits TLC runs through a machine-wide slot budget (one slot per worker, all or nothing), so a run with
     # several workers can wait minutes when other checks run side by side (measured: 150 s for two slots): the cases
     # are dealt over independent single-worker TLC runs instead, each admitted as soon as any slot is free.
-    mc_parts = 2 if ctx.quick() else 6
+    mc_parts = 3 if ctx.quick() else 6
     ctx.extra["model_checked_cases"] = len(mc_cases)
 
     def start_mc(k):
